@@ -44,7 +44,7 @@ def callee_ref(route, uid, j):
         return 'NS.sub.' + base
     if route == 'method':
         return 'self.' + base
-    if route in ('param', 'param_kw', 'param_default'):
+    if route in ('param', 'param_kw', 'param_default', 'param_method'):
         return 'fn%d' % j
     if route == 'partial':
         return base
@@ -216,6 +216,13 @@ def render(prog, uid):
         lines.append('def F%s(%s%s):' % (uid, fns, ', ' + outer_txt if outer_txt else ''))
         lines.extend(ind + ln for ln in body_lines(prog, uid))
         lines.append('W%s = functools.partial(F%s, %s)' % (uid, uid, ', '.join('C%s_%d' % (uid, j) for j in range(n))))
+        return '\n'.join(lines) + '\n'
+    if prog.route == 'param_method':
+        # the forwarder is a bound method; the callee is a bound positional of the partial
+        lines.append('class K%s(object):' % uid)
+        lines.append(ind + 'def F(self, fn0%s):' % (', ' + outer_txt if outer_txt else ''))
+        lines.extend(ind * 2 + ln for ln in body_lines(prog, uid))
+        lines.append('W%s = functools.partial(K%s().F, C%s_0)' % (uid, uid, uid))
         return '\n'.join(lines) + '\n'
     if prog.route in ('param_kw', 'param_default'):
         # the callee arrives through a keyword-only parameter fn0: bound by keyword / only a default value
